@@ -1916,6 +1916,12 @@ def run_A(pid, tier, seed):
         stats["liveness_runs"] += 1
         if not ok:
             failures.append(Failure("counterexample", "loop-blocked/after-a-node-failed", dict(kinds=["fail"], maxc=maxc), detail, slice_="A"))
+    # ... nor while the scheduler drains the pool for a sequential candidate with both kinds in flight: the wait pair
+    # gives the hand to the loop first (async wait), the blocking thread wait comes after the async-thread node is done
+    ok, detail = A.liveness_sequential_drain()
+    stats["liveness_runs"] += 1
+    if not ok:
+        failures.append(Failure("counterexample", "loop-blocked/sequential-drain", dict(kinds=["a", "t", "seq"], maxc=3), detail, slice_="A"))
     # ... with a thread node in flight next to it, it is (known finding, model witness C17c_mixed_witness)
     ok, detail = A.liveness(["t"], 3)
     stats["liveness_runs"] += 1
